@@ -54,6 +54,11 @@ def parseOp (line : String) : Option Op :=
   | ["setprice", s, v] => do some (.setPrice (← s.toNat?) (← parseRat? v))
   | ["setcf", s, k, v] => do some (.setCF (← s.toNat?) (← k.toNat?) (← parseRat? v))
   | ["copy", s] => do some (.copy (← s.toNat?))
+  | ["copyto", s, pkg] => do
+    let (pid, pkg) ← (match splitOn1 pkg '=' with
+      | [i, l] => do some ((← i.toNat?), (← parseNats l))
+      | _ => none)
+    some (.copyTo (← s.toNat?) pid pkg)
   | ["copylike", t, s] => do some (.copyLike (← t.toNat?) (← s.toNat?))
   | ["copytc", t, s] => do some (.copyTC (← t.toNat?) (← s.toNat?))
   | ["link", t, s, f, p, tp] => do
